@@ -27,6 +27,7 @@ RULE = (
 )
 ASSUMPTIONS = [
     "reference semantics mc/ref/seqsem.py",
+    "one validator object per problem validates all of its plans in search order (a verdict must not depend on earlier validations)",
     "plans using an action without cost under MinimizeActionCosts without default are skipped (documented as malformed)",
     "plans whose metric reads an undefined fluent are skipped (statement silent)",
     "problems with malformed initial state are skipped",
@@ -108,6 +109,10 @@ def check_case(cid, k, acc):
     def viol(sub, what, plan):
         acc.violation("%s|%s" % (sub, lab), what, {"cid": tj(cid), "k": k, "plan": [[gas[j][0], list(gas[j][1])] for j in plan]})
 
+    # ONE validator object validates every plan of this problem, in search order: its verdict on a
+    # plan must not depend on the plans it validated before (renewed only after it raised)
+    box = {"validator": SequentialPlanValidator(environment=env)}
+
     def visit(plan, states, dead):
         """plan: tuple of ga indices; states: reference states along it (until dead)."""
         acc.count("states")
@@ -134,8 +139,9 @@ def check_case(cid, k, acc):
                 acc.count("nontrivial")
             sp = SequentialPlan([ActionInstance(up_gas[j][0], up_gas[j][1]) for j in plan], env)
             try:
-                res = SequentialPlanValidator(environment=env).validate(prob, sp)
+                res = box["validator"].validate(prob, sp)
             except Exception as e:
+                box["validator"] = SequentialPlanValidator(environment=env)
                 viol("raises:%s:%s" % (type(e).__name__, "empty-plan" if not plan else ("valid" if exp_valid else "invalid")),
                      "validate raised %s: %s" % (type(e).__name__, str(e)[:200]), plan)
                 res = None
